@@ -195,7 +195,7 @@ Definition run_hp (dw frozen has_bn fold : bool) (K d0 : nat) (beta gamma : list
 Inductive tens := TS1 (x : list (list Z)) | TS2 (x : list (list (list Z))) | TS0 (x : list Z) | TErr.
 Inductive xnode :=
 | XIn
-| XPad (src P P' : nat)                              (* ConstantPad1d((P,0)); P' = amount after export *)
+| XPad (src P P' : nat)                              (* a stand-alone ConstantPad1d((P,0)); P' = amount after export (not used for the pad of a conv1d) *)
 | XConv1 (src : nat) (fold dw : bool) (w : list (list (list Z))) (b : option (list Z)) (cin K d s : nat) (m tm : list bool) (K' d' : nat)
 | XConv2 (src : nat) (fold dw : bool) (w : list (list (list (list Z)))) (b : option (list Z)) (cin kh kw d s ph pw : nat) (m : list bool)
 | XLin (src : nat) (fold : bool) (w : list (list Z)) (b : option (list Z)) (cin : nat) (m : list bool)
@@ -238,9 +238,9 @@ Definition xstep (x : tens) (acc : list xstate) (nd : xnode) : xstate :=
   | XIn => (x, x, all_true (tchan x))
   | XPad src P P' => let '(p, e, a) := xget acc src in
       (match p with TS1 v => TS1 (Zpad1d P v) | _ => TErr end, match e with TS1 v => TS1 (Zpad1d P' v) | _ => TErr end, a)
-  | XConv1 src fold dw w b cin K d s m tm K' d' => let '(p, e, a) := xget acc src in
-      (match p with TS1 v => TS1 (pit_conv1d_l fold dw w b cin K d s m tm v) | _ => TErr end,
-       match e with TS1 v => TS1 (Zconv1d dw (export_w3 dw m a tm w) (export_bias m b) (count_true a) K' d' s v) | _ => TErr end, m)
+  | XConv1 src fold dw w b cin K d s m tm K' d' => let '(p, e, a) := xget acc src in     (* the causal pad is part of the layer *)
+      (match p with TS1 v => TS1 (pit_conv1d_l fold dw w b cin K d s m tm (Zpad1d ((K - 1) * d) v)) | _ => TErr end,
+       match e with TS1 v => TS1 (Zconv1d dw (export_w3 dw m a tm w) (export_bias m b) (count_true a) K' d' s (Zpad1d ((K' - 1) * d') v)) | _ => TErr end, m)
   | XConv2 src fold dw w b cin kh kw d s ph pw m => let '(p, e, a) := xget acc src in
       (match p with TS2 v => TS2 (pit_conv2d_l fold dw w b cin kh kw d s ph pw m v) | _ => TErr end,
        match e with TS2 v => TS2 (Zconv2d dw (export_w4 dw m a w) (export_bias m b) (count_true a) kh kw d s ph pw v) | _ => TErr end, m)
